@@ -5,4 +5,5 @@ CONSTANTS P = 4
 INVARIANT SplitInvariant
 INVARIANT InRange
 INVARIANT DurationConserved
+INVARIANT PerfectEstimate
 INVARIANT Export
